@@ -17,10 +17,12 @@ CFG = """CONSTANTS
  TagAts <- %s
  Depths <- MCDepths
  Deepen <- MCDeepen
+ PBs <- %s
+ Deepen2 <- MCDeepen2
  EmitAll = TRUE
 INIT Init
 NEXT Next
-INVARIANTS PostConnected FullClosure RefsMapped ShallowSane TagInside Emit
+INVARIANTS PostConnected FullClosure RefsMapped ShallowSane TagInside OldBoundaryKept PlainKeepsBoundary Emit
 CHECK_DEADLOCK FALSE
 """
 
@@ -38,11 +40,11 @@ PROPERTIES Terminates
 def run(ctx):
     import random
     scs = []
-    r = ctx.tlc("MCFetch", cfg_text=CFG % (5, "MCDags5", "MCB5q" if ctx.thorough else "MCB5qq", "MCTag5q"), workers=1, timeout=1500)
+    r = ctx.tlc("MCFetch", cfg_text=CFG % (5, "MCDags5", "MCB5q" if ctx.thorough else "MCB5qq", "MCTag5q", "MCPBs5"), workers=1, timeout=1500)
     scs += ctx.printed_json(r)
     n5 = len(scs)
     if ctx.thorough:
-        r4 = ctx.tlc("MCFetch", cfg_text=CFG % (4, "MCDags4", "MCB4q", "MCTag4q"), workers=1, timeout=1500, cfg="MCFetch_four.cfg")
+        r4 = ctx.tlc("MCFetch", cfg_text=CFG % (4, "MCDags4", "MCB4q", "MCTag4q", "MCPBs4"), workers=1, timeout=1500, cfg="MCFetch_four.cfg")
         scs += ctx.printed_json(r4)
     if not scs:
         raise vlib.ToolingError("TLC printed no fetch scenarios")
@@ -52,7 +54,8 @@ def run(ctx):
     strata = {}
     for s in scs:
         p = s["scn"]["prior"]
-        k = (("empty" if p["px"] == 0 else "shallow%d" % p["d1"] if p["d1"] else "diverged" if p["local"] else "partial"), s["scn"]["depth"], s["scn"]["tags"])
+        k = (("empty" if p["px"] == 0 else "shallow1x2" if p.get("pb") else "shallow%d" % p["d1"] if p["d1"] else "diverged" if p["local"] else "partial"),
+             s["scn"]["depth"], s["scn"]["tags"] if not p.get("pb") else s["scn"]["refspec"])
         strata.setdefault(k, []).append(s)
     want = 2100 if ctx.thorough else 100
     picked = []
